@@ -1,12 +1,13 @@
-import OpusModel.Gen.SilkCoreTabs
 /-
-  OpusModel.SilkCoreFrozen — FROZEN copy (taken from the pinned tree) of every table and constant the synthesis model reads
-  from `Opus.Gen.SilkCoreTabs` (which is regenerated from `/repo` on every run): the LTP gain codebooks, the LTP scaling
-  table, the quantisation offsets, and the constants of silk/define.h / SigProc_FIX.h / structs.h.  `frozenEq` compares the
-  two; `OpusProps.C03SilkCore.tables_frozen_eq_repo` states that it holds, so an edited table entry or constant in the tree
-  breaks that theorem (the reference itself cannot drift with the tree).  Never regenerate this file.
+  OpusModel.SilkCoreFrozen — the FROZEN tables and constants of the synthesis reference (taken from the pinned tree): the LTP gain
+  codebooks, the LTP scaling table, the quantisation offsets, and the constants of silk/define.h / SigProc_FIX.h / structs.h.
+  The model (`OpusModel/SilkCore*.lean`) reads THESE values, not the regenerated ones, so an edited table entry or constant in
+  the tree makes the library disagree with the reference on a concrete frame (tie) and breaks
+  `OpusProps.C03SilkCore.tables_frozen_eq_repo` (`OpusModel/SilkCoreFrozenEq.lean` compares this file with
+  `Opus.Gen.SilkCoreTabs`, regenerated from `/repo` on every run).  Never regenerate this file.
 -/
-namespace Opus.SilkCoreFrozen
+namespace Opus.Frozen.SilkCoreTabs
+
 
 
 /- silk_LTP_vq_ptrs_Q7[ PERIndex ] (silk/tables_LTP.c), rows of LTP_ORDER taps, silk_LTP_vq_sizes[] rows -/
@@ -61,40 +62,5 @@ def setFsPrevSignalType : Int := 0
 def setFsFirstFrameAfterReset : Int := 1
 
 
-/-- Every regenerated value equals its frozen copy. -/
-def frozenEq : Bool :=
-  decide (Opus.Gen.SilkCoreTabs.ltpVq0 = ltpVq0) &&
-  decide (Opus.Gen.SilkCoreTabs.ltpVq1 = ltpVq1) &&
-  decide (Opus.Gen.SilkCoreTabs.ltpVq2 = ltpVq2) &&
-  decide (Opus.Gen.SilkCoreTabs.ltpVqSizes = ltpVqSizes) &&
-  decide (Opus.Gen.SilkCoreTabs.nbLtpCbks = nbLtpCbks) &&
-  decide (Opus.Gen.SilkCoreTabs.ltpScalesQ14 = ltpScalesQ14) &&
-  decide (Opus.Gen.SilkCoreTabs.quantOffsetsQ10 = quantOffsetsQ10) &&
-  decide (Opus.Gen.SilkCoreTabs.quantOffsetsCols = quantOffsetsCols) &&
-  decide (Opus.Gen.SilkCoreTabs.quantLevelAdjustQ10 = quantLevelAdjustQ10) &&
-  decide (Opus.Gen.SilkCoreTabs.bweAfterLossQ16 = bweAfterLossQ16) &&
-  decide (Opus.Gen.SilkCoreTabs.randMultiplier = randMultiplier) &&
-  decide (Opus.Gen.SilkCoreTabs.randIncrement = randIncrement) &&
-  decide (Opus.Gen.SilkCoreTabs.ltpOrder = ltpOrder) &&
-  decide (Opus.Gen.SilkCoreTabs.maxLpcOrder = maxLpcOrder) &&
-  decide (Opus.Gen.SilkCoreTabs.minLpcOrder = minLpcOrder) &&
-  decide (Opus.Gen.SilkCoreTabs.maxNbSubfr = maxNbSubfr) &&
-  decide (Opus.Gen.SilkCoreTabs.ltpMemLengthMs = ltpMemLengthMs) &&
-  decide (Opus.Gen.SilkCoreTabs.subFrameLengthMs = subFrameLengthMs) &&
-  decide (Opus.Gen.SilkCoreTabs.maxFrameLength = maxFrameLength) &&
-  decide (Opus.Gen.SilkCoreTabs.szOutBuf = szOutBuf) &&
-  decide (Opus.Gen.SilkCoreTabs.szExcQ14 = szExcQ14) &&
-  decide (Opus.Gen.SilkCoreTabs.szSLpcQ14Buf = szSLpcQ14Buf) &&
-  decide (Opus.Gen.SilkCoreTabs.szPrevNlsf = szPrevNlsf) &&
-  decide (Opus.Gen.SilkCoreTabs.typeNoVoiceActivity = typeNoVoiceActivity) &&
-  decide (Opus.Gen.SilkCoreTabs.typeUnvoiced = typeUnvoiced) &&
-  decide (Opus.Gen.SilkCoreTabs.typeVoiced = typeVoiced) &&
-  decide (Opus.Gen.SilkCoreTabs.codeConditionally = codeConditionally) &&
-  decide (Opus.Gen.SilkCoreTabs.transitionTapQ14 = transitionTapQ14) &&
-  decide (Opus.Gen.SilkCoreTabs.resetPrevGainQ16 = resetPrevGainQ16) &&
-  decide (Opus.Gen.SilkCoreTabs.setFsLagPrev = setFsLagPrev) &&
-  decide (Opus.Gen.SilkCoreTabs.setFsLastGainIndex = setFsLastGainIndex) &&
-  decide (Opus.Gen.SilkCoreTabs.setFsPrevSignalType = setFsPrevSignalType) &&
-  decide (Opus.Gen.SilkCoreTabs.setFsFirstFrameAfterReset = setFsFirstFrameAfterReset)
 
-end Opus.SilkCoreFrozen
+end Opus.Frozen.SilkCoreTabs
